@@ -331,6 +331,8 @@ def features(ops: list, root: int, nl: int) -> list:
             vo = {0}
         elif n['op'] == 'ConditionalSum':
             vo = set(range(0, len(k), 2))
+        elif n['op'] in COMPARISONS or n['op'] in ('And', 'Or', 'BelongsTo'):
+            vo = set(range(len(k)))        # the operands of comparisons and logical operators are evaluated for their value only
         else:
             vo = set()
         for slot, kid in enumerate(k):
